@@ -78,6 +78,12 @@ def gen_case(rng, tier, idx):
         cfg["simulation"]["sessions"].append({
             "sessionName": i, "iterationSteps": st, "withOrderPlacement": pl, "withOrderExecution": ex,
             "withPrint": False, "maxNormalOrders": rng.choice([1, 2, 3]), "maxHighFrequencyOrders": 1})
+    if rng.random() < 0.12:
+        # a session with zero steps is a valid configuration: it begins and ends at the same time
+        pos = rng.randrange(len(cfg["simulation"]["sessions"]) + 1)
+        cfg["simulation"]["sessions"].insert(pos, {"sessionName": "empty", "iterationSteps": 0, "withOrderPlacement": True,
+                                                   "withOrderExecution": True, "withPrint": False})
+        res_zero = True
     add_builtin_events(rng, cfg, which=["FundamentalPriceShock", "FundamentalPriceShock", "OrderMistakeShock"], p_each=0.6)
     # a probe event that observes hooks and performs parameter changes "now"
     changes = []
